@@ -113,7 +113,13 @@ func c13Run(e *Env) {
 		outcome int // peer: 0 answer, 1 error code, 2 silence, 3 reset, 4 malformed block
 	}
 	var exs []*exch
-	var liveObs []client.Observation
+	type liveOb struct {
+		ob  client.Observation
+		idx int
+	}
+	var liveObs []liveOb
+	obsToken := map[int][]byte{} // exchange index -> token of its registration, as seen on the wire
+	regOutcome := map[string]int{}
 	liveCount := 0
 	w.OnRecv = func(m *WMsg) {
 		if IsDatagram(tr) && (m.Type == TACK || m.Type == TRST) {
@@ -157,9 +163,20 @@ func c13Run(e *Env) {
 		if outcome == 5 && !bw {
 			outcome = 0
 		}
+		if ov, isObs := m.OptUint(OptObserve); isObs && ov == 0 {
+			// a server answers every copy of one registration alike (an error after a success would end the observation)
+			if o, seen := regOutcome[string(m.Token)]; seen {
+				outcome = o
+			} else {
+				regOutcome[string(m.Token)] = outcome
+			}
+		}
 		var opts []WOpt
-		if _, isObs := m.OptUint(OptObserve); isObs {
+		if ov, isObs := m.OptUint(OptObserve); isObs {
 			opts = append(opts, UintOpt(OptObserve, 4))
+			if ov == 0 {
+				obsToken[ParseNonce(m)] = m.Token
+			}
 		}
 		if b1, ok := m.OptUint(OptBlock1); ok {
 			// block-wise upload: acknowledge blocks; the final one gets the answer
@@ -216,7 +233,7 @@ func c13Run(e *Env) {
 				ob, err := w.API.Observe(ctx, "/o", func(*pool.Message) {}, QueryOpt(x.idx))
 				if err == nil {
 					e.mu.Lock()
-					liveObs = append(liveObs, ob)
+					liveObs = append(liveObs, liveOb{ob, x.idx})
 					e.mu.Unlock()
 				}
 				return nil, err
@@ -224,7 +241,7 @@ func c13Run(e *Env) {
 				e.mu.Lock()
 				var ob client.Observation
 				if len(liveObs) > 0 {
-					ob = liveObs[0]
+					ob = liveObs[0].ob
 					liveObs = liveObs[1:]
 				}
 				e.mu.Unlock()
@@ -280,6 +297,7 @@ func c13Run(e *Env) {
 		}, w.API.ReleaseMessage)
 	}
 
+	endedByPeer := 0
 	for step := 0; step < 80 && e.Budget(); step++ {
 		evs := w.Events(4)
 		if len(exs) < nEx {
@@ -299,6 +317,32 @@ func c13Run(e *Env) {
 					}})
 				}
 			}
+		}
+		// the peer ends an observation (RFC 7641 3.2 / 4.2): a notification with an error code. From then on the
+		// observation is not live any more, whether or not the application ever calls Cancel.
+		e.mu.Lock()
+		nLive := len(liveObs)
+		e.mu.Unlock()
+		if nLive > 0 && endedByPeer < 2 {
+			evs = append(evs, Event{Label: "peer-ends-observation", W: 1, Do: func() {
+				e.mu.Lock()
+				k := t.Choose(len(liveObs))
+				lo := liveObs[k]
+				tok := obsToken[lo.idx]
+				if tok != nil {
+					liveObs = append(liveObs[:k:k], liveObs[k+1:]...)
+				}
+				e.mu.Unlock()
+				if tok == nil {
+					return
+				}
+				endedByPeer++
+				e.Fault("observe.endedByPeer")
+				e.Probe("observation.endedByPeer")
+				e.Logf("the peer ends the observation of ex%d with a 4.04 notification", lo.idx)
+				it := w.Queue(&WMsg{Type: TNON, Code: 0x84, MID: w.NextPeerMID(), Token: tok}, "final notification (4.04)")
+				it.NoDrop = true
+			}})
 		}
 		if running > 0 {
 			evs = append(evs, Event{Label: "advance", W: 2, Do: func() {
